@@ -46,3 +46,11 @@ Theorem store_checker_sound : forall hs cur obs,
   store_okb cur hs obs = true <-> obs = store_run cur hs.
 Proof. exact store_okb_sound. Qed.
 Print Assumptions store_checker_sound.
+
+(* fuel_block_from_protobuf regenerates the header (message_receipt_count, message_outbox_root,
+   application hash, block id) from recomputed outbox message ids: for EVERY assignment of
+   receipts to transactions the ids recomputed by the loop of the code are the producer's
+   (per transaction: the MessageOut ids unless that very transaction reverted or panicked). *)
+Theorem outbox_ids_recomputed : forall rss, recomputed_ids rss = producer_ids rss.
+Proof. exact recomputed_ids_producer. Qed.
+Print Assumptions outbox_ids_recomputed.
